@@ -2,7 +2,9 @@
 
   crates/anstyle-wincon/src/ansi.rs    `write_colored` is TRANSLATED by tools/gen_fn_wincon_ansi.py
                                        (Generated/WinconAnsiFn.v, Proofs/WinconAnsiGen.v); the whole-body
-                                       regex pin this file used to carry for it is gone
+                                       regex pin this file used to carry for it is gone; the bodies of the non-Windows
+                                       `impl WinconStream` blocks are read textually (three spellings) and, failing that,
+                                       classified by their TRANSLATION (gen_fn_wincon_ansi.unix_impl_kinds)
   crates/anstyle/src/reset.rs          the RESET string and that `Reset` displays as one fragment
   crates/anstyle/src/color.rs          `AnsiColor::render_fg/bg` display as ONE fragment (the
                                        strings themselves are in Generated/Style.v)
@@ -107,12 +109,23 @@ def register(generators, gm):
             for name, rx in _BODIES:
                 if re.fullmatch(rx, body):
                     kind = name
-            if kind is None:
-                raise GenError("stream.rs: impl for %s: body not recognised: %r" % (ty, body[:200]))
             cfg = "WaAny"
             for (a, b, c) in regions:
                 if a < m.start() < b:
                     cfg = c
+            if kind is None and cfg != "WaWin":
+                # none of the spellings: what a non-Windows impl MEANS is decided by its translation (tools/gen_fn_wincon_ansi.py,
+                # the code Generated/WinconAnsiFn.v is written from; Proofs/WinconAnsiGen.v g_wc_*_eq): it forwards to
+                # crate::ansi::write_colored / to the impl of the lock it takes / to the pointee's impl.  GEN-ERROR only if that fails too
+                import gen_fn_wincon_ansi
+                from rs2v.driver import TranslateError
+                try:
+                    kinds = gen_fn_wincon_ansi.unix_impl_kinds(gm.read("crates/anstyle-wincon/src/ansi.rs"), gm.read("crates/anstyle-wincon/src/stream.rs"))
+                except TranslateError as e:
+                    raise GenError("stream.rs: impl for %s: body not recognised and not translatable: %s" % (ty, e))
+                kind = kinds.get(ty.replace("<'_>", "").replace("<'static>", ""))
+            if kind is None:
+                raise GenError("stream.rs: impl for %s: body not recognised: %r" % (ty, body[:200]))
             out.append((ty, cfg, kind))
         if n_impl != len(re.findall(r"\bimpl\b", src)):
             raise GenError("stream.rs: an impl block that is not `impl WinconStream for T`")
